@@ -35,9 +35,12 @@ ASSUMPTIONS = [
     "lazy load's own need for the parent key never decides what else gets loaded",
     "an external DELETE is not generated for a row that has pending changes in the session and attributes of externally deleted rows are not "
     "modified (the resulting StaleDataError at flush is a different contract)",
-    "documented behaviours relied on: accessing one expired column attribute loads all expired column attributes of the instance "
-    "(Session.expire docstring); a plain query fills unloaded attributes of an identity it returns but never overwrites loaded ones; "
-    "rollback() without a transaction in progress is a pass-through; setting an attribute to its loaded value is no net change",
+    "when an expired attribute is physically re-loaded within a transaction (sibling access, a query returning the identity, a flush needing "
+    "the key) is the implementation's choice: the public inspect(obj).unloaded selects the model branch (SQL/autoflush or not, what survives a "
+    "commit without expiry), the expected value always comes from the model",
+    "documented behaviours relied on: a plain query never overwrites loaded or pending attributes; populate_existing erases pending changes and "
+    "resets lazy collections; refresh() expires first, then autoflushes, then loads; rollback() without a transaction in progress is a "
+    "pass-through; setting an attribute to its loaded value is no net change (no UPDATE)",
     "trusted: sqlite3 raw connection as independent observer/writer",
 ]
 
